@@ -369,10 +369,15 @@ def observe(obj, name):
         out["@has_spline"] = bool(obj.has_spline())
         out["@spline_keys"] = None if obj.spline is None else numpy.array(sorted(int(k) for k in obj.spline.keys()), dtype="int64")
         if obj.has_spline():
+            # evaluate the public spline models directly: interp_genpos() sorts/groups the map as a side effect
             pc, pp = _probe_points(obj)
+            vals = numpy.empty(len(pc), dtype="float64")
             with warnings.catch_warnings():
                 warnings.simplefilter("ignore")
-                out["@interp"] = numpy.asarray(obj.interp_genpos(pc, pp), dtype="float64")
+                for i in range(len(pc)):
+                    model = obj.spline.get(int(pc[i]))
+                    vals[i] = numpy.nan if model is None else float(model(int(pp[i])))
+            out["@interp"] = vals
         else:
             out["@interp"] = None
     return out
